@@ -7,6 +7,9 @@ Require Import Urcu.ListDl.ListDlProof.
 Require Import Urcu.BpArena.BpArena.
 Require Import Urcu.Gp.GpMbDyn.
 Require Import Urcu.Gp.GpMbDynExec.
+Require Import Urcu.Gp.GpDynCore.
+Require Import Urcu.Gp.GpDynProof.
+Require Import Urcu.Gp.GpDynExec.
 Import ListNotations.
 
 (* cds_list_add(x, h) (rcu_register_thread): x becomes the first element of h's ring, for every ring and every memory *)
@@ -93,15 +96,33 @@ Print Assumptions C15_bp_alloc_never_null.
 
 (* mb flavor on TSO with threads registering and unregistering at any moment relative to the grace period, any number of times (idle, under the registry mutex): when a grace period ends, no reader that was registered and inside a section when it began is still in that section - for every schedule, any number of readers and nesting depth *)
 Theorem C15_gp_with_dynamic_registry :
-    forall s : state, reach init s -> ph s = U_Idle -> forall r : nat, old_open (rd s r) = false.
+    forall s : GpMbDyn.state,
+    GpMbDyn.reach GpMbDyn.init s ->
+    GpMbDyn.ph s = GpMbDyn.U_Idle -> forall r : nat, GpMbDyn.old_open (GpMbDyn.rd s r) = false.
 Proof. exact (@Urcu.Gp.GpMbDyn.gp_mbdyn_waits_for_preexisting_readers). Qed.
 Print Assumptions C15_gp_with_dynamic_registry.
 
 (* every action sequence accepted by the executable interpreter (the one the projected traces of src/urcu.c with register / unregister operations are fed to) is a run of that model *)
 Theorem C15_accepted_dynamic_trace_satisfies_gp :
-    forall (regs : list nat) (l : list mact) (s' : state),
-    mrun regs l init = Some s' ->
-    reach init s' /\ (ph s' = U_Idle -> forall r : nat, old_open (rd s' r) = false).
+    forall (regs : list nat) (l : list mact) (s' : GpMbDyn.state),
+    mrun regs l GpMbDyn.init = Some s' ->
+    GpMbDyn.reach GpMbDyn.init s' /\
+    (GpMbDyn.ph s' = GpMbDyn.U_Idle -> forall r : nat, GpMbDyn.old_open (GpMbDyn.rd s' r) = false).
 Proof. exact (@Urcu.Gp.GpMbDynExec.accepted_mbdyn_trace_satisfies_gp). Qed.
 Print Assumptions C15_accepted_dynamic_trace_satisfies_gp.
+
+(* memb flavor (sys_membarrier drains every reader's store buffer) with threads registering and unregistering at any moment: when a grace period ends, no reader that was registered and inside a section when it began is still in that section *)
+Theorem C15_gp_memb_with_dynamic_registry :
+    forall (isreg : nat -> bool) (s : state),
+    reach (init isreg) s -> ph s = U_Idle -> forall r : nat, old_open (rd s r) = false.
+Proof. exact (@Urcu.Gp.GpDynProof.gp_dyn_waits_for_preexisting_readers). Qed.
+Print Assumptions C15_gp_memb_with_dynamic_registry.
+
+(* every action sequence accepted by the executable interpreter fed with the projected traces of the default (memb) build of src/urcu.c with register / unregister operations is a run of that model *)
+Theorem C15_accepted_dynamic_memb_trace_satisfies_gp :
+    forall (regs : list nat) (l : list gact) (s' : state),
+    grun regs l init0 = Some s' ->
+    reach init0 s' /\ (ph s' = U_Idle -> forall r : nat, old_open (rd s' r) = false).
+Proof. exact (@Urcu.Gp.GpDynExec.accepted_dyn_trace_satisfies_gp). Qed.
+Print Assumptions C15_accepted_dynamic_memb_trace_satisfies_gp.
 
